@@ -117,6 +117,7 @@ AckToks == [i \in 1 .. Len(SelectSeq(script, LAMBDA r : r.k = "ack")) |->
 TokensRelayed ==
   /\ NonEmpty(SentTokens(st)) = NonEmpty(st.provOut)
   /\ \A i \in 1 .. Len(st.sent) : (st.sent[i].type = "bind") <=> (i = 1)
+NoEmptyAlter == \A i \in 1 .. Len(st.sent) : st.sent[i].type = "alter" => st.sent[i].tok > 0
 (* (b) the server's tokens are fed back in order, one per step after the first            *)
 ServerTokensFed ==
   prov.auth => /\ Len(st.fed) >= 1 /\ st.fed[1] = -1
